@@ -119,7 +119,7 @@ def _path_open(interp, self, args, kwargs):
         if mode.startswith('x') and self._pv_ghost.get('exists', True) and not self._pv_ghost.get('unused'):
             raise Unsupported('exclusive creation of a path that is not known to be unused')
         f = new_opaque(interp, TextFileI, self._pv_uid + '.open(%s)' % mode)
-        f._pv_ghost.update(path=self, mode=mode, pos=z3.IntVal(0), closed=False, cookies={})
+        f._pv_ghost.update(path=self, mode=mode, pos=z3.IntVal(0), closed=False, cookies={}, dirty=False)
         set_stored(interp, self, _sv(''))
         self._pv_ghost['exists'] = True
         self._pv_ghost['unused'] = False
@@ -300,6 +300,7 @@ def _w_writelines(interp, self, args, kwargs):
 def _f_seek(interp, self, args, kwargs):
     g = self._pv_ghost
     st = interp.st
+    g['dirty'] = False           # TextIOWrapper.seek flushes
     off = args[0]
     whence = args[1] if len(args) > 1 else 0
     if whence != 0:
@@ -446,7 +447,7 @@ def child_writes(interp, out, s):
         # a file opened through PathI.open: writes of the object are modelled as stored at once; sound only if
         # nothing has been written through the object since it was opened / flushed -- else the result is unknown
         p = g['path']
-        if g.get('dirty'):
+        if g.get('dirty', True):      # (a file object of unknown history may hold unflushed text)
             set_stored(interp, p, st.fresh_str(out._pv_uid + '.unknown-order'))
         else:
             set_stored(interp, p, _write_at_pos(interp, out, stored_of(interp, p), s))
@@ -458,6 +459,14 @@ def child_writes(interp, out, s):
     head = st.fresh_str(out._pv_uid + '.flushed')
     st.assume(w == z3.Concat(head, pend))
     g['written'] = z3.simplify(z3.Concat(head, _t(s), pend))
+
+
+def nothing_buffered(interp, f):
+    """(ghost) everything written through the file object has reached the file"""
+    g = f._pv_ghost
+    if 'path' in g:
+        return not g.get('dirty', True)
+    return interp.st.must_hold(pending_of(interp, f) == _sv(''))
 
 
 class BufferedOutI(TextOutI):
